@@ -338,3 +338,28 @@ theorem finalize_pruned_ok_or_error_core {jt : JetTypes} {leak : Bool} {p : Plan
   | panic => rw [hu] at h; cases h
 
 end Routes
+
+namespace Routes
+open BM4 Prog
+
+theorem runSides_spec {jt : JetTypes} {p : Plan} {program : Bool} {cand : Nat → Option Val} {re : RunEnv}
+    {S : List (Nat × Bool)} (h : runSides jt p program cand re = some S) :
+    ∃ ar r tr, routeU jt p program cand = .ok ar r ∧ trackedRun p ar r re = .ok tr ∧ tr.sides = S := by
+  unfold runSides at h
+  cases hu : routeU jt p program cand with
+  | ok ar r =>
+    rw [hu] at h
+    simp only at h
+    cases hr : trackedRun p ar r re with
+    | ok tr =>
+      rw [hr] at h
+      simp only [Option.some.injEq] at h
+      exact ⟨ar, r, tr, rfl, hr, h⟩
+    | failed k => rw [hr] at h; cases h
+    | noTerm => rw [hr] at h; cases h
+  | err => rw [hu] at h; cases h
+  | illTyped => rw [hu] at h; cases h
+  | fuel => rw [hu] at h; cases h
+  | panic => rw [hu] at h; cases h
+
+end Routes
